@@ -113,3 +113,32 @@ pub open spec fn ss_init_post(s0: Strategy, s1: Strategy, step0: real, step1: re
                  || fresh_adapt(s0.options, s1.adaptation, step1),
         }
 }
+
+// ---- per-leapfrog acceptance statistics (C07.5), written from the property text; dE = E_end - E_init
+/// asymmetric statistic a(dE) = min(1, e^{-dE})
+pub open spec fn acc_asym(de: real) -> real { min_r(1real, exp_r(-de)) }
+/// symmetric statistic s(dE) = 2 min(1, e^{-dE}) / (1 + e^{-dE})
+pub open spec fn acc_symm(de: real) -> real { 2real * min_r(1real, exp_r(-de)) / (1real + exp_r(-de)) }
+/// machine-range helper precondition of register_leapfrog (the two u64 counters do not overflow)
+pub open spec fn arc_leapfrog_pre(c: AcceptanceRateCollector) -> bool {
+    c.mean.count < 0xffff_ffff_ffff_fff0 && c.mean_sym.count < 0xffff_ffff_ffff_fff0
+}
+/// what one leapfrog ending at total energy `end_energy` (or diverging) does to the collector:
+/// both means receive one value -- a(dE) resp. s(dE), or 0 on a divergence -- and the count advances
+/// by one in BOTH cases (C03.5: n_steps = number of leapfrogs); dE is measured against the energy
+/// stored by register_init
+pub open spec fn arc_leapfrog_post(c0: AcceptanceRateCollector, c1: AcceptanceRateCollector, end_energy: real, diverged: bool) -> bool {
+    let de = end_energy - c0.initial_energy.r();
+    &&& c1.initial_energy == c0.initial_energy
+    &&& c1.mean.count == c0.mean.count + 1 && c1.mean_sym.count == c0.mean_sym.count + 1
+    &&& c1.mean.sum.r() == c0.mean.sum.r() + (if diverged { 0real } else { acc_asym(de) })
+    &&& c1.mean_sym.sum.r() == c0.mean_sym.sum.r() + (if diverged { 0real } else { acc_symm(de) })
+    &&& (!diverged ==> c1.max_energy_error.r() == (if abs_r(-de) > abs_r(c0.max_energy_error.r()) { -de } else { c0.max_energy_error.r() }))
+}
+/// register_init stores the state's energy as baseline and resets both means
+pub open spec fn arc_init_post(c1: AcceptanceRateCollector, energy: real) -> bool {
+    &&& c1.initial_energy.r() == energy
+    &&& c1.mean.sum.r() == 0real && c1.mean.count == 0
+    &&& c1.mean_sym.sum.r() == 0real && c1.mean_sym.count == 0
+    &&& c1.max_energy_error.r() == 0real
+}
